@@ -206,6 +206,13 @@ mod dictionary {
             if bytes.is_empty() {
                 return output.push(bytes);
             }
+            // A literal is told apart from a dictionary code by its first byte. If that byte is a
+            // tag bound to a dictionary entry, the literal would read back as that entry.
+            assert!(
+                self.encode.contains_key(bytes) || self.decode.get(bytes[0].into()).is_none(),
+                "DictionaryCodec cannot represent a byte string whose first byte {} is a dictionary tag",
+                bytes[0]
+            );
             self.total += bytes.len();
             // If we have an index referencing `bytes`, use the index key.
             let index = if let Some(b) = self.encode.get(bytes) {
